@@ -6,6 +6,7 @@ a new clock/random/env read, map range, float computation or stateful keeper fie
 import Irismod.Spec.C11
 import Irismod.Model.Mt
 import Irismod.Props.C15
+import Irismod.Proofs.Order
 
 namespace Irismod.Props.C11
 open Irismod Irismod.Spec.C11
@@ -22,5 +23,45 @@ theorem mt_run_deterministic (g : Mt.State) (h₁ h₂ : List Mt.Op) (e : h₁ =
 theorem mt_run_append (g : Mt.State) (h₁ h₂ : List Mt.Op) :
     Mt.run (Mt.run g h₁) h₂ = Mt.run g (h₁ ++ h₂) := by
   unfold Mt.run; rw [List.foldl_append]
+
+/-! ### the reasons on the allow-list, as theorems
+
+A Go map yields its entries in an arbitrary order. The allow-list admits a `range` over a map
+only for one of three reasons; each is a theorem about the corresponding model operation,
+with the arbitrary order modelled as an arbitrary permutation of the entry list. -/
+
+/-- "keys are collected and sorted before use" (mt `sortedKeys`, service `getSortedKeys`, the
+token-fee ante decorator): the sorted key list is the same for every order — and every
+multiplicity — in which the keys arrive -/
+theorem sorted_keys_order_independent {l₁ l₂ : List String} (h : l₁.Perm l₂) :
+    MtGenesis.sortDedup l₁ = MtGenesis.sortDedup l₂ :=
+  Proofs.Order.sortDedup_perm h
+
+/-- "each entry is written under its own key" (random `InitGenesis`): writing entries with
+pairwise distinct keys gives the same store content in every visiting order -/
+theorem distinct_key_writes_order_independent {K V : Type} [DecidableEq K] (m : AMap K V)
+    {es₁ es₂ : List (K × V)} (hp : es₁.Perm es₂) (hn : (es₁.map (·.1)).Nodup) (k : K) :
+    AMap.get? (Proofs.Order.writeAll m es₁) k = AMap.get? (Proofs.Order.writeAll m es₂) k :=
+  Proofs.Order.writeAll_perm m hp hn k
+
+/-- "order decides only which error text is reported; accept/reject is order-independent"
+(the `ValidateGenesis` loops over maps): a per-entry check accepts all entries in one order iff
+it does in any other -/
+theorem validation_verdict_order_independent {α : Type} (p : α → Bool) {l₁ l₂ : List α}
+    (h : l₁.Perm l₂) : l₁.all p = l₂.all p :=
+  Proofs.Order.all_perm p h
+
+/-- the MT genesis export (the site repaired by fix 948278d) is a function of the store
+content: two states whose tables answer every lookup alike — whatever the order in which their
+entries were inserted — export the same document -/
+theorem mt_export_order_independent (s₁ s₂ : Mt.State) (h : Proofs.Order.SameContent s₁ s₂) :
+    MtGenesis.exportGenesis s₁ = MtGenesis.exportGenesis s₂ :=
+  Proofs.Order.exportGenesis_content s₁ s₂ h
+
+/-- non-vacuity: two balance tables with the same content, filled in opposite orders -/
+example :
+    let s₁ : Mt.State := { bal := [(("A1", "d1", "m1"), 3), (("A0", "d1", "m1"), 4)] }
+    let s₂ : Mt.State := { bal := [(("A0", "d1", "m1"), 4), (("A1", "d1", "m1"), 3)] }
+    s₁.bal ≠ s₂.bal ∧ MtGenesis.exportGenesis s₁ = MtGenesis.exportGenesis s₂ := by decide
 
 end Irismod.Props.C11
